@@ -404,8 +404,11 @@ func judgeWrite(c *wcase) (f *core.Failure, observed string) {
 				return mk("wrong-call-kind", "only Put/BatchPut", logStr(muts)), observed
 			}
 		}
-		if store.CanonPairsList(carried) != store.CanonPairsList(writes) {
-			return mk("writes-differ-from-statement", "writes in order "+store.CanonPairsList(writes), "writes "+store.CanonPairsList(carried)), observed
+		// each stated write exactly once (as a multiset), and for every key the
+		// values in the order stated (so that a later duplicate wins); the
+		// relative order of writes to different keys is not prescribed
+		if msg := sameWrites(carried, writes); msg != "" {
+			return mk("writes-differ-from-statement", "writes "+store.CanonPairsList(writes)+" (each once; per key in this order)", "writes "+store.CanonPairsList(carried)+": "+msg), observed
 		}
 	case "remove":
 		var carried []string
@@ -450,6 +453,33 @@ func judgeWrite(c *wcase) (f *core.Failure, observed string) {
 		}
 	}
 	return nil, observed
+}
+
+// sameWrites: got is a permutation of want that keeps, for every key, the
+// order of its values.
+func sameWrites(got, want []store.Pair) string {
+	if len(got) != len(want) {
+		return fmt.Sprintf("%d writes issued, %d stated", len(got), len(want))
+	}
+	per := func(ps []store.Pair) map[string][]string {
+		m := map[string][]string{}
+		for _, p := range ps {
+			m[p.K] = append(m[p.K], p.V)
+		}
+		return m
+	}
+	g, w := per(got), per(want)
+	for k, vs := range w {
+		if strings.Join(g[k], "\x00") != strings.Join(vs, "\x00") || len(g[k]) != len(vs) {
+			return fmt.Sprintf("key %q: values issued %q, stated %q", k, g[k], vs)
+		}
+	}
+	for k := range g {
+		if _, ok := w[k]; !ok {
+			return fmt.Sprintf("key %q written but not stated", k)
+		}
+	}
+	return ""
 }
 
 func replayWrite(prop string, data json.RawMessage) *core.Failure {
@@ -586,7 +616,7 @@ func c11Preds() []*ref.Expr {
 	}
 }
 
-var c11Limits = [][]int{nil, {1}, {2}, {0, 0}, {1, 1}, {1, 2}, {2, 1}, {0, 3}, {3, 1}}
+var c11Limits = [][]int{nil, {1}, {2}, {0, 0}, {1, 1}, {1, 2}, {2, 1}, {0, 3}, {3, 1}, {1, 3}, {1, 4}, {2, 2}, {0, 4}, {4, 4}}
 var c11Polls = []string{"N", "B", "NN", "BB", "NB", "BN", "NNN", "BBB", "BNB"}
 
 func (c11) Units(t core.Tier) int { return len(reachableStates()) }
@@ -655,7 +685,7 @@ func (c12) Info() core.Info {
 		ID:    "C12",
 		Title: "PUT and REMOVE apply exactly the stated writes, once, all-or-nothing",
 		Level: "model_checking",
-		Rule: "explicit-state search over the same 81-state space as C11: transitions = `put` with every list of 1..3 pairs from a pool of 10 pair expressions (literals, duplicate keys, concatenated and numeric keys, values that read `key`, function calls) plus 3 failing ones at every position, `remove` with every list of 1..3 keys from a pool of 7 (one failing), each under every poll word of length 1..4 over {Next,Batch} (quick: length <= 3 for 3-element lists) at batch sizes {1,32}, plus statically forbidden forms; every transition runs on the real plan over a clone of the state. Oracle: post-state = model (later duplicate wins; value sees its own key); the pairs/keys carried by the mutating calls, in call order, are exactly the evaluated list (each stated write once); no write on evaluation failure; no storage call and no row on later polls; a follow-up `select * where key = k` observes each write; forbidden forms are rejected with an empty call log. " +
+		Rule: "explicit-state search over the same 81-state space as C11: transitions = long `put` / `remove` lists (4..40 elements with duplicate keys in three patterns) and `put` with every list of 1..3 pairs from a pool of 10 pair expressions (literals, duplicate keys, concatenated and numeric keys, values that read `key`, function calls) plus 3 failing ones at every position, `remove` with every list of 1..3 keys from a pool of 7 (one failing), each under every poll word of length 1..4 over {Next,Batch} (quick: length <= 3 for 3-element lists) at batch sizes {1,32}, plus statically forbidden forms; every transition runs on the real plan over a clone of the state. Oracle: post-state = model (later duplicate wins; value sees its own key); the pairs/keys carried by the mutating calls, in call order, are exactly the evaluated list (each stated write once); no write on evaluation failure; no storage call and no row on later polls; a follow-up `select * where key = k` observes each write; forbidden forms are rejected with an empty call log. " +
 			"Non-trivial: the statement changes the state or fails at evaluation. Distinct: (state, statement, B, polls).",
 		Assumptions:      []string{"whether writes travel as Put or BatchPut is not prescribed (the property says 'exactly once')", "numbers written by PUT are compared as decimal integers only (no float rendering is documented)"},
 		CrashIsViolation: true,
@@ -708,6 +738,28 @@ func (c12) RunUnit(t core.Tier, u int, r *core.Reporter) {
 				}
 				run(&wstmt{Kind: "put", Pairs: [][2]*ref.Expr{p1, p2, p3}}, ws, bs)
 			}
+		}
+	}
+	// long lists with duplicate keys: "overwritten in order, a later duplicate wins"
+	// must not depend on the list being short
+	ks := []string{"a", "b", "ab", "2"}
+	for _, n := range []int{4, 7, 12, 13, 16, 20, 33, 40} {
+		for pat := 0; pat < 3; pat++ {
+			var pairs [][2]*ref.Expr
+			for i := 0; i < n; i++ {
+				v := "1"
+				if (i/len(ks)+i+pat)%2 == 0 || (pat == 2 && i%3 == 0) {
+					v = "x"
+				}
+				k := ks[(i*(pat+1))%len(ks)]
+				pairs = append(pairs, [2]*ref.Expr{ref.S(k), ref.S(v)})
+			}
+			run(&wstmt{Kind: "put", Pairs: pairs}, []string{"N", "B", "NB"}, []int{1, 32})
+			var keys []*ref.Expr
+			for i := 0; i < n; i++ {
+				keys = append(keys, ref.S(ks[(i*(pat+1))%len(ks)]))
+			}
+			run(&wstmt{Kind: "remove", Keys: keys}, []string{"N", "B"}, []int{32})
 		}
 	}
 	rp := c12RemovePool()
